@@ -11,6 +11,8 @@
 #include <yaclib/async/make.hpp>
 #include <yaclib/async/wait.hpp>
 #include <yaclib/async/when_all.hpp>
+#include <yaclib/coro/await.hpp>
+#include <yaclib/coro/future.hpp>
 
 #include <optional>
 
@@ -26,6 +28,8 @@ struct Obs {
   std::optional<yaclib::Future<int>> next;
   std::optional<yaclib::Future<Payload>> shared;
   std::optional<yaclib::Future<std::vector<yaclib::Result<Payload>>>> when;
+  std::optional<yaclib::Future<int>> awaited;       // a coroutine awaiting this copy together with a ready SharedFuture
+  std::optional<yaclib::SharedFuture<Payload>> ready;  // fulfilled before anything starts
 };
 
 VRT_SCENARIO(sh, "fulfiller + observers on copies of one SharedFuture") {
@@ -56,6 +60,12 @@ VRT_SCENARIO(sh, "fulfiller + observers on copies of one SharedFuture") {
       obs[i].sf.emplace(std::move(f0));
     } else {
       obs[i].sf.emplace(f0);
+    }
+    if (ops[i] == "await2") {
+      vrt::Ambient amb;
+      auto [rf, rp] = yaclib::MakeSharedContract<Payload>();
+      std::move(rp).Set(Payload{5});
+      obs[i].ready.emplace(std::move(rf));
     }
   }
 
@@ -102,6 +112,15 @@ VRT_SCENARIO(sh, "fulfiller + observers on copies of one SharedFuture") {
         // it is provably the last owner
         vrt::Api api{"WhenAll"};
         me.when.emplace(yaclib::WhenAll<yaclib::FailPolicy::None>(std::move(sf), yaclib::MakeFuture<Payload>(Payload{3})));
+      } else if (op == "await2") {
+        // a coroutine awaits this copy TOGETHER with a SharedFuture that is already fulfilled (the multi-await event
+        // discounts the ready one while the other may complete concurrently)
+        vrt::Api api{"Await"};
+        me.awaited.emplace([](yaclib::SharedFuture<Payload> a, yaclib::SharedFuture<Payload> b, std::string who) -> yaclib::Future<int> {
+          co_await Await(a, b);
+          vrt::Obs("resumed", who);
+          co_return 1;
+        }(sf, *me.ready, name));
       } else if (op == "copy_drop") {
         vrt::Api api{"Copy"};
         auto copy = sf;
@@ -150,6 +169,11 @@ VRT_SCENARIO(sh, "fulfiller + observers on copies of one SharedFuture") {
       ctx.Final(name + "_when", d);
       obs[i].when.reset();
     }
+    if (obs[i].awaited) {
+      ctx.Final(name + "_await", obs[i].awaited->Ready() ? "ready" : "not_ready");
+      obs[i].awaited.reset();
+    }
+    obs[i].ready.reset();
     if (obs[i].shared) {
       ctx.Final(name + "_share",
                 obs[i].shared->Ready() ? vh::Desc(std::move(*obs[i].shared).Get()) : std::string("not_ready"));
